@@ -1,13 +1,23 @@
 (* C14 — snapshot acceleration and repeated use never change results or the source.
-   M = Model/SigTimes.v (cached_docs, content_interval, isd_cached), Model/Isd.v (isd).
-   Proved, for every document without ruby containers (kinds body/div/p/span/br/text: `body_plain`), every
-   rational time: the cached snapshot is the uncached snapshot with whole regions left out — every region it
-   does contain is EQUAL to the uncached one, so acceleration can never show different content.
-   Not proved (full statement): the regions left out paint nothing (soundness of the content interval), and the
-   same for documents with ruby; both are evaluated on the model and on the code by harness/c14.py through
-   Spec/RenderSpec.v.  "The source document is unchanged" holds of an immutable model by construction and is
-   established for the Python object graph by fingerprinted operation histories (testing, harness/c14.py). *)
-From TT Require Import Model.Doc Gen.StyleTables Model.Isd Model.SigTimes Spec.RenderSpec Proofs.C14.Cache Proofs.C14.Restrict.
+   M = Model/SigTimes.v (cached_docs, content_interval, isd_cached, isd_sequence), Model/Isd.v (isd),
+       Model/IsdCache.v (the interval / activity caches of ISD._process_element as explicit state).
+   S = Spec/RenderSpec.v (render: the regions that paint), Spec/DocWf.v (the content model the model API enforces).
+   Proved for every well-formed document (ruby included) and every rational time:
+     - whatever the cache skips paints nothing (`C14_skipped_paints_nothing`, full);
+     - the cached snapshot is the uncached one minus regions that paint nothing, hence renders identically
+       (`C14_cached_render_equiv_partial`; full for documents with at most one region: `C14_render_equiv_small`);
+     - the generated sequence consists of cached snapshots that render like the uncached ones (`C14_sequence_render_partial`);
+     - one significant-times object used for any list of times gives what a fresh one gives (`C14_cache_reuse`), and the
+       interval cache it carries, however it was filled by earlier calls (raising ones included), never changes a result
+       (`C14_cache_state_*`).
+   `_partial` = outside the executable trigger `clone_empties_doc` of the recorded finding ruby-base-emptied-by-region
+   (Findings/C14.v refutes the unconditional statements: the cached path raises, or drops an empty <rb>).
+   When the UNCACHED path raises (recorded C01 finding ruby-inactive-annotation) nothing is claimed: the cached path may
+   raise too or return a snapshot (it prunes more before Ruby.push_children looks).
+   "The source document is unchanged" holds of an immutable model by construction and is established for the Python
+   object graph by fingerprinted operation histories (testing, harness/c14.py). *)
+From TT Require Import Model.Doc Gen.StyleTables Model.Isd Model.SigTimes Model.CloneTrigger Model.IsdCache Spec.RenderSpec Spec.DocWf.
+From TT Require Import Proofs.C14.Cache Proofs.C14.Restrict Proofs.C14.Sound Proofs.C14.Sequence Proofs.C14.CacheState.
 
 Theorem C14_cached_docs_small : forall d, (length (d_regions d) <= 1)%nat -> cached_docs d = Ok [d].
 Proof. exact cached_docs_small. Qed.
@@ -17,16 +27,83 @@ Theorem C14_params_only : forall d d', same_params d d' ->
   forall t sel e inh par pb pe, proc d t sel inh par pb pe e = proc d' t sel inh par pb pe e.
 Proof. exact proc_ext. Qed.
 
-(* the per-region clone gives the same region snapshot as the document itself *)
+(* the per-region clone gives the same region snapshot as the document itself — any element tree, ruby included *)
 Theorem C14_clone_region_partial : forall d r c t rid o,
-  body_plain d -> e_id (eattrs r) = Some rid -> clone_one_region d r = Ok c ->
+  clone_keeps d rid -> e_id (eattrs r) = Some rid -> clone_one_region d r = Ok c ->
   proc_region d t (Some rid) r = Ok o -> isd c t = Ok (match o with Some x => [x] | None => [] end).
 Proof. exact clone_region_same. Qed.
 
-Theorem C14_cached_omits_regions_partial : forall d t ds rs,
-  body_plain d -> Forall (fun r => exists rid, e_id (eattrs r) = Some rid) (d_regions d) ->
-  cached_docs d = Ok ds -> isd d t = Ok rs -> exists rs', isd_cached d t = Ok rs' /\ omits_regions rs' rs.
-Proof. exact cached_omits_regions. Qed.
+(* (i) soundness of the content interval: what the cache skips paints nothing (c = the document or one of its clones) *)
+Theorem C14_skipped_paints_nothing : forall c t rs,
+  doc_wf c = true -> skip_cached t (content_interval c) = true -> isd c t = Ok rs -> Forall (fun r => paints r = false) rs.
+Proof. exact skipped_paints_nothing. Qed.
+Theorem C14_clone_wf : forall d r c, doc_wf d = true -> In r (d_regions d) -> clone_one_region d r = Ok c -> doc_wf c = true.
+Proof. exact clone_wf. Qed.
 
-Print Assumptions C14_cached_docs_small.  Print Assumptions C14_params_only.
-Print Assumptions C14_clone_region_partial.  Print Assumptions C14_cached_omits_regions_partial.
+(* (i)+(ii) MAIN: cached and uncached render identically *)
+Theorem C14_cached_render_equiv_partial : forall d t ds rs,
+  doc_wf d = true -> clone_empties_doc d = false -> cached_docs d = Ok ds -> isd d t = Ok rs ->
+  exists rs', isd_cached d t = Ok rs' /\ omits_only (fun r => paints r = false) rs' rs /\ render rs' = render rs.
+Proof. exact cached_render_equiv. Qed.
+(* ... unconditionally when nothing is cloned *)
+Theorem C14_render_equiv_small : forall d t rs,
+  doc_wf d = true -> (length (d_regions d) <= 1)%nat -> isd d t = Ok rs ->
+  exists rs', isd_cached d t = Ok rs' /\ omits_only (fun r => paints r = false) rs' rs /\ render rs' = render rs.
+Proof. exact render_equiv_small. Qed.
+
+(* outcomes: the cached call raises only if the uncached call raises *)
+Theorem C14_cached_raises_only_if_uncached_partial : forall d t ds c,
+  doc_wf d = true -> clone_empties_doc d = false -> cached_docs d = Ok ds -> isd_cached d t = Err c -> exists c', isd d t = Err c'.
+Proof. exact cached_raises_only_if_uncached. Qed.
+
+(* (iii) generate_isd_sequence = the cached snapshots at the significant times, each rendering like the uncached one *)
+Theorem C14_sequence_render_partial : forall d s,
+  doc_wf d = true -> clone_empties_doc d = false -> isd_sequence d = Ok s ->
+  exists l, sig d = Ok l /\ map fst s = l /\
+            Forall (fun p => isd_cached d (fst p) = Ok (snd p) /\
+                             forall rs, isd d (fst p) = Ok rs -> omits_only (fun r => paints r = false) (snd p) rs /\ render (snd p) = render rs) s.
+Proof. exact sequence_render. Qed.
+
+(* (iv) one significant-times object, any list of times in any order *)
+Theorem C14_cache_reuse : forall d ds, cached_docs d = Ok ds ->
+  forall ts, map (fun t => isd_cached_docs t ds) ts = map (fun t => isd_cached d t) ts.
+Proof. exact cache_reuse. Qed.
+Theorem C14_cache_reuse_render_partial : forall d ds, doc_wf d = true -> clone_empties_doc d = false -> cached_docs d = Ok ds ->
+  forall ts, Forall (fun t => forall rs, isd d t = Ok rs -> exists rs', isd_cached_docs t ds = Ok rs' /\ render rs' = render rs) ts.
+Proof. exact cache_reuse_render. Qed.
+
+(* the interval/activity dictionaries of ISD._process_element as explicit state (Model/IsdCache.v).  One cached document:
+   from a sound state (interval entries = absolute intervals, activity entries = activity at t) the call returns what the
+   cache-free transcription returns and leaves a sound state; a call without sig_times (empty dictionaries) IS `isd` *)
+Theorem C14_cache_state_document : forall c t dc,
+  dsound (Some t) c dc -> fst (isd_st c t dc) = isd c t /\ dsound (Some t) c (snd (isd_st c t dc)).
+Proof. exact isd_st_sound. Qed.
+Theorem C14_from_model_plain : forall d t, from_model_plain d t = isd d t.
+Proof. exact from_model_plain_eq. Qed.
+(* one call with a SignificantTimes object whose interval caches are sound (stale activity entries are dropped) *)
+Theorem C14_cache_state_call : forall t s, state_sound s ->
+  fst (from_model_st t s) = isd_cached_docs t (map fst s) /\ state_sound (snd (from_model_st t s)) /\
+  map fst (snd (from_model_st t s)) = map fst s.
+Proof. exact from_model_st_sound. Qed.
+(* (iv) what significant_times builds is sound; any list of query times in any order on that one object returns, at each
+   time, what ISD.from_model(doc, t, <fresh object>) returns — whatever the earlier calls wrote into the caches, and also
+   when some of them raised *)
+Theorem C14_cache_state_built : forall ds, state_sound (built_state ds).
+Proof. exact built_state_sound. Qed.
+Theorem C14_cache_state_history : forall d ds, cached_docs d = Ok ds -> forall ts,
+  fst (run_history ts (built_state ds)) = map (fun t => isd_cached d t) ts.
+Proof. exact history_built. Qed.
+
+(* the hypotheses are satisfiable, and the cache does skip a region there (2 regions uncached, 1 cached) *)
+Example C14_hypotheses_satisfiable :
+  doc_wf ex_doc = true /\ clone_empties_doc ex_doc = false /\ (exists ds, cached_docs ex_doc = Ok ds) /\
+  (exists s, isd_sequence ex_doc = Ok s) /\ (exists rs, isd ex_doc (Qmake 3 1) = Ok rs /\ render rs <> []) /\
+  (exists rs rs', isd ex_doc (Qmake 5 1) = Ok rs /\ isd_cached ex_doc (Qmake 5 1) = Ok rs' /\ length rs' = 1%nat /\ length rs = 2%nat).
+Proof. exact hypotheses_satisfiable. Qed.
+
+Print Assumptions C14_cached_docs_small.  Print Assumptions C14_params_only.  Print Assumptions C14_clone_region_partial.
+Print Assumptions C14_skipped_paints_nothing.  Print Assumptions C14_clone_wf.  Print Assumptions C14_cached_render_equiv_partial.
+Print Assumptions C14_render_equiv_small.  Print Assumptions C14_cached_raises_only_if_uncached_partial.  Print Assumptions C14_sequence_render_partial.  Print Assumptions C14_cache_reuse.
+Print Assumptions C14_cache_reuse_render_partial.  Print Assumptions C14_cache_state_document.  Print Assumptions C14_from_model_plain.
+Print Assumptions C14_cache_state_call.  Print Assumptions C14_cache_state_built.  Print Assumptions C14_cache_state_history.
+Print Assumptions C14_hypotheses_satisfiable.
